@@ -17,7 +17,6 @@ package jobs
 import (
 	"context"
 	"errors"
-	"math"
 	"reflect"
 	"sync"
 	"time"
@@ -230,11 +229,12 @@ func (pipeline *IncrementalPipeline) sync(job *job, ctx context.Context) (int, e
 						transformTS := time.Now()
 
 						parallelisms := pipeline.transform.getParallelism()
-						if len(entities) < parallelisms {
+						if parallelisms < 1 || len(entities) < parallelisms {
 							parallelisms = 1
 						}
 
-						psize := int(math.Round(float64(len(entities)) / float64(parallelisms)))
+						// chunk size rounded up, so that the chunks cover all entities
+						psize := (len(entities) + parallelisms - 1) / parallelisms
 						workResults := make([]presult, parallelisms)
 
 						local := func(workId int, lentities []*server.Entity, wg *sync.WaitGroup) {
@@ -260,12 +260,8 @@ func (pipeline *IncrementalPipeline) sync(job *job, ctx context.Context) (int, e
 						wid := 0
 						index := 0
 						for i := 0; i < parallelisms; i++ {
-							from := index
-							to := index + psize
-
-							if to >= len(entities) {
-								to = index + (len(entities) - index)
-							}
+							from := min(index, len(entities))
+							to := min(index+psize, len(entities))
 
 							chunk := make([]*server.Entity, to-from)
 							copy(chunk, entities[from:to])
